@@ -154,7 +154,9 @@ def lit_map_variants(d, level=0):
 # cases, with modifiers, twice, with the escape code itself in a literal key, one level down
 LITMAPS = [{"path": ["b"]}, {"name": "x", "path": ["b"]}, {"path": ["b"], "name": "x"},
            {"n": 1, "Path.length": ["b"], "z": 2}, {"path": ["a"], "path.first": ["b"]}, {"\\path": ["b"], "k": 1},
-           {"q": {"path": ["b"]}}, {"pathological": 1}, {"a": {"path": ["b"]}, "path": 1}, {"k": 1, "PATH": {"path": ["b"]}}]
+           {"q": {"path": ["b"]}}, {"pathological": 1}, {"a": {"path": ["b"]}, "path": 1}, {"k": 1, "PATH": {"path": ["b"]}},
+           # below the one level the parser inspects: taken verbatim
+           {"opts": {"target": {"path": ["x"]}}}, {"o": [{"path": ["x"]}], "k": 1}, {"m": {"n": {"\\path": ["b"]}}}]
 
 
 def litmap_cases():
